@@ -1,7 +1,7 @@
 """C02 - an instance that fits an eligible up server is not left pending."""
 from mc import statex
-from mc.props import _cellprop
-from mc.worlds import cellcfg, cellmon
+from mc.props import _cellprop, _masterprop
+from mc.worlds import cellcfg, cellmon, mastercfg
 from mc.worlds.cellcfg import T1, T2
 
 BUDGET = {'quick': 600, 'thorough': 2400}
@@ -43,7 +43,7 @@ class ProbeSpec(_cellprop.CellSpec):
 
 def _k1():
     cfg = cellcfg.k1()
-    cfg['monitors'] = []
+    cfg['monitors'] = [cellmon.mon_c02_aggregates]
     cfg['allow_nocycle'] = False
     # two instances of one shape class with incomparable, unsatisfiable
     # demands (the feasibility tracker's shortcut is keyed by shape class)
@@ -75,7 +75,7 @@ def _k1():
 
 def _k2():
     cfg = cellcfg.k2()
-    cfg['monitors'] = []
+    cfg['monitors'] = [cellmon.mon_c02_aggregates]
     cfg['allow_nocycle'] = False
     cfg['templates']['u2'] = {'prio': 60, 'demand': [6, 6, 6], 'aff': 'd',
                               'alloc': 'a', 'traits': T2}
@@ -106,7 +106,7 @@ def _k2():
 def _k3():
     lim = {'rack': 1, 'cell': 2}
     cfg = cellcfg.k3(lim)
-    cfg['monitors'] = []
+    cfg['monitors'] = [cellmon.mon_c02_aggregates]
     cfg['allow_nocycle'] = False
     cfg['events'] = cellcfg.ev(
         ('add', 'la'), ('add', 'lb'), ('add', 'fill'), ('add', 'mid'),
@@ -137,7 +137,7 @@ def _k5():
     because of server lifetime; probes of the same shape class with a shorter
     or no lease must still find the short-lived server."""
     cfg = cellcfg.k5()
-    cfg['monitors'] = []
+    cfg['monitors'] = [cellmon.mon_c02_aggregates]
     cfg['idgroups'] = {}
     cfg['allow_nocycle'] = False
     cfg['events'] = cellcfg.ev(
@@ -157,12 +157,37 @@ def _k5():
     return cfg
 
 
+class MasterProbeSpec(_masterprop.MasterSpec):
+    """World B: no probes, the aggregate clause after every cycle."""
+    probe = None
+
+
+def _m2():
+    """World B: partition / trait / capacity changes of registered servers
+    through the real Loader (reload_server, adjust_presence, load_cell);
+    the aggregates of racks and cell must follow."""
+    cfg = mastercfg.m2()
+    cfg['cellmonitors'] = [cellmon.mon_c02_aggregates]
+    cfg['allow_nocycle'] = False
+    cfg['events'] = mastercfg.ev(
+        ('app+', 'pl'), ('app+', 't1'), ('app-', 0),
+        ('srv', 's0', 1), ('srv', 's0', 2), ('srv', 's0', 0),
+        ('srv', 's1', 1), ('srv', 's1', 0),
+        ('pres-', 's0'), ('pres+', 's0', 1), ('pres+', 's0', 0),
+        ('pres-', 's2'), ('pres+', 's2', 0),
+        ('pres-', 's3'), ('pres+', 's3', 0),
+        ('cell-', 'rack:1'), ('cell+', 'rack:1'),
+        ('noop',), ('restart',),
+    )
+    return cfg
+
+
 def configs(ctx):
     if ctx.quick:
         return [('K1', _k1(), 4, 0), ('K2', _k2(), 4, 0), ('K3', _k3(), 4, 0),
-                ('K5', _k5(), 4, 0)]
+                ('K5', _k5(), 4, 0), ('M2', _m2(), 3, 0, MasterProbeSpec)]
     return [('K1', _k1(), 6, 0), ('K2', _k2(), 6, 0), ('K3', _k3(), 6, 0),
-            ('K5', _k5(), 6, 0)]
+            ('K5', _k5(), 6, 0), ('M2', _m2(), 5, 0, MasterProbeSpec)]
 
 
 RULE = ('BFS over histories (servers down/up/removed/re-added, instances '
